@@ -43,6 +43,10 @@ func main() {
 			fmt.Fprintln(os.Stderr, "gen:", err)
 			os.Exit(1)
 		}
+		if err := genChangeSites(*outDir); err != nil {
+			fmt.Fprintln(os.Stderr, "gen:", err)
+			os.Exit(1)
+		}
 		return
 	}
 	w := out.New(*outDir)
